@@ -107,6 +107,21 @@ def r18_1(ctx: Ctx, E: Effects, rule="R18.1"):
             if isinstance(n_, ast.Attribute) and isinstance(n_.ctx, ast.Store) and norm(n_.value) == "self":
                 attrs.add(n_.attr)
         read = {n_.attr for n_ in ast.walk(cp.node) if isinstance(n_, ast.Attribute) and norm(n_.value) == "self"}
+        # attributes read through methods / properties of the same object that the copy calls (two levels)
+        todo, seen_m = [cp], {cp.qual}
+        for _lvl in range(2):
+            nxt = []
+            for g_ in todo:
+                for n_ in ast.walk(g_.node):
+                    if isinstance(n_, ast.Attribute) and norm(n_.value) == "self":
+                        for k_ in ctx.repo.mro(c):
+                            m_ = k_.methods.get(n_.attr) or k_.getters.get(n_.attr)
+                            if m_ is not None and m_.qual not in seen_m:
+                                seen_m.add(m_.qual)
+                                nxt.append(m_)
+                                read |= {x_.attr for x_ in ast.walk(m_.node) if isinstance(x_, ast.Attribute) and norm(x_.value) == "self"}
+                                break
+            todo = nxt
         miss = sorted(attrs - read)
         ctx.ob(rule, cp, "%s reads %s of %s" % (copy_name, sorted(read & attrs), sorted(attrs)), not miss,
                "the copy carries every attribute the constructor sets" + ("" if not miss else " -- not copied: %s" % miss),
@@ -307,7 +322,9 @@ def r18_3(ctx: Ctx, E: Effects, rule="R18.3"):
         for l_ in loops_:
             av_ = norm(l_.target.elts[0]) if isinstance(l_.target, ast.Tuple) else norm(l_.target)
             tgts = sorted(norm(s_.targets[0]) for s_ in l_.body if isinstance(s_, ast.Assign))
-            vals = {norm(s_.value) for s_ in l_.body if isinstance(s_, ast.Assign)}
+            al18 = {norm(s_.targets[0]): norm(s_.value) for s_ in l_.body if isinstance(s_, ast.Assign) and isinstance(s_.targets[0], ast.Name)}
+            tgts = sorted(norm(s_.targets[0]) for s_ in l_.body if isinstance(s_, ast.Assign) and not isinstance(s_.targets[0], ast.Name))
+            vals = {al18.get(norm(s_.value), norm(s_.value)) for s_ in l_.body if isinstance(s_, ast.Assign) and not isinstance(s_.targets[0], ast.Name)}
             if tgts == ["%s.gro_resid" % av_, "%s.top_resid" % av_] and len(vals) == 1:
                 v_ = list(vals)[0]
                 okl = (kind == "int" and v_ == rp) or (kind == "list" and v_.startswith(rp + "["))
